@@ -192,7 +192,7 @@ static void process_alu_2(
     snprintf(instruction, length, "%s%s%s %s, %s",
       table_arm[index].instr,
       arm_cond[ARM_NIB(28)],
-      (s == 1) ? "s" : "",
+      (s == 1 && use_d == 1) ? "s" : "",
       arm_reg[ARM_NIB(reg_offset)],
       opcode2);
   }
@@ -201,7 +201,7 @@ static void process_alu_2(
     snprintf(instruction, length, "%s%s%s %s, %s",
       table_arm[index].instr,
       arm_cond[ARM_NIB(28)],
-      (s == 1) ? "s" : "",
+      (s == 1 && use_d == 1) ? "s" : "",
       arm_reg[ARM_NIB(reg_offset)],
       opcode2);
   }
